@@ -193,7 +193,11 @@ class MetricLineReceiver(MetricReceiver, LineOnlyReceiver):
 
   def lineReceived(self, line):
     if sys.version_info >= (3, 0):
-      line = line.decode('utf-8')
+      try:
+        line = line.decode('utf-8')
+      except UnicodeDecodeError:
+        log.listener('invalid line (not UTF-8) received from client %s, ignoring' % self.peerName)
+        return
 
     try:
       metric, value, timestamp = line.strip().split()
